@@ -1,4 +1,5 @@
 SPECIFICATION TSpec
-CONSTANT Configs <- AllConfigs
+CONSTANT Configs <- AllInvConfigs
 INVARIANT RootInvariance
 INVARIANT SplitInvariance
+INVARIANT ScopeIsRootFree
